@@ -1095,7 +1095,8 @@ func (mgr *Manager) DelTag(name string) error {
 			}
 			// remove converter results of attached converters from cache
 			if len(tag.converters) > 0 {
-				for _, converter := range tag.converters {
+				// range over a copy: detaching removes the converter from tag.converters
+				for _, converter := range slices.Clone(tag.converters) {
 					if err := mgr.detachConverterFromTag(tag, name, converter); err != nil {
 						return err
 					}
@@ -1284,8 +1285,21 @@ func (mgr *Manager) UpdateTag(name string, operation UpdateTagOperation) error {
 				mgr.startConverterJobIfNeeded()
 			}
 			if info.convertersUpdated {
+				// every converter has to be known before anything is detached: a rejected call changes nothing
+				for _, converterName := range info.setConverterNames {
+					converter, ok := mgr.converters[converterName]
+					if !ok {
+						return fmt.Errorf("unknown converter %q", converterName)
+					}
+					if !slices.Contains(tag.converters, converter) {
+						if err := converterAttachable(tag, name); err != nil {
+							return fmt.Errorf("failed to attach converter %q to tag %q: %w", converterName, name, err)
+						}
+					}
+				}
 				// detach deselected converters from tag
-				for _, converter := range tag.converters {
+				// (range over a copy: detaching removes the converter from tag.converters)
+				for _, converter := range slices.Clone(tag.converters) {
 					if slices.Contains(info.setConverterNames, converter.Name()) {
 						continue
 					}
@@ -1912,17 +1926,24 @@ func (mgr *Manager) restartConverterProcess(path string) error {
 	return nil
 }
 
+// converterAttachable asserts low complexity of the tag's query:
+// cannot attach converter to tag which references other tags or matches on stream data
+// because we don't want to recursively trigger converters
+// TODO: we could allow data queries if they only reference the stream's own plain data
+func converterAttachable(tag *tag, tagName string) error {
+	if tag.features.MainFeatures&query.FeatureFilterData != 0 || tag.features.SubQueryFeatures&query.FeatureFilterData != 0 || len(tag.features.MainTags) > 0 || len(tag.features.SubQueryTags) > 0 {
+		return fmt.Errorf("error: cannot attach converter to tag %s because it's query is too complex", tagName)
+	}
+	return nil
+}
+
 func (mgr *Manager) attachConverterToTag(tag *tag, tagName string, converter *converters.CachedConverter) error {
 	// check if converter already exists
 	if slices.Contains(tag.converters, converter) {
 		return nil
 	}
-	// assert low complexity of this tag's query
-	// cannot attach converter to tag which references other tags or matches on stream data
-	// because we don't want to recursively trigger converters
-	// TODO: we could allow data queries if they only reference the stream's own plain data
-	if tag.features.MainFeatures&query.FeatureFilterData != 0 || tag.features.SubQueryFeatures&query.FeatureFilterData != 0 || len(tag.features.MainTags) > 0 || len(tag.features.SubQueryTags) > 0 {
-		return fmt.Errorf("error: cannot attach converter to tag %s because it's query is too complex", tagName)
+	if err := converterAttachable(tag, tagName); err != nil {
+		return err
 	}
 
 	tag.converters = append(tag.converters, converter)
